@@ -25,7 +25,7 @@ type Case struct {
 
 func genCase(t *rapid.T) Case {
 	format := rapid.SampledFrom([]string{"uri", "uripost", "raw", "jsonline"}).Draw(t, "format")
-	c := Case{File: ag.Gen(t, format, ag.GenOpts{MinEntries: 1, MaxEntries: 8})}
+	c := Case{File: ag.Gen(t, format, ag.GenOpts{MinEntries: 1, MaxEntries: 8, AllowBig: true})}
 	c.Passes = rapid.IntRange(1, 3).Draw(t, "passes")
 	return c
 }
@@ -103,6 +103,7 @@ func check(c Case, o *vf.Obs) error {
 	o.ClassIf(f.Layout.JSON == "array", "json_array")
 	o.ClassIf(f.Layout.JSON == "pretty", "json_pretty")
 	o.ClassIf(c.Passes > 1, "multi_pass")
+	o.ClassIf(f.Big, "file_larger_than_reader_buffer")
 	if len(ents) >= 2 && (f.Layout.LayoutKnobOn() || f.MidFileDirective() || binary) {
 		o.NonTrivial()
 	}
